@@ -484,8 +484,137 @@ class Normaliser:
             out.append(s)
         return out
 
+    # ---- memoisation: `if K not in C: ...; C[K] = V` ... `C[K]` ----------------------------------------------------------
+    def dememoise(self, node):
+        """A local dict used as a memo table inside a loop is looked through when its key determines the memoised value (every
+        loop variable the value depends on is named by the key): the guarded computation becomes unconditional and reads of
+        C[K] become the value.  When the key does NOT determine the value the code is left alone and the fact is recorded in
+        self.memo_issues - the memoised value of one iteration would be reused for another it does not belong to."""
+        local_dicts = set()
+        for n in ast.walk(node):
+            if isinstance(n, ast.Assign) and len(n.targets) == 1 and isinstance(n.targets[0], ast.Name) and \
+                    ((isinstance(n.value, ast.Dict) and not n.value.keys) or (isinstance(n.value, ast.Call) and U(n.value.func) == 'dict' and not n.value.args)):
+                local_dicts.add(n.targets[0].id)
+        # a memo table is only ever: initialised, tested by `K not in C`, stored under a guard, and read as C[K]
+        for C in list(local_dicts):
+            uses = sum(1 for n in ast.walk(node) if isinstance(n, ast.Name) and n.id == C)
+            ok_uses = 0
+            for n in ast.walk(node):
+                if isinstance(n, ast.Assign) and len(n.targets) == 1 and isinstance(n.targets[0], ast.Name) and n.targets[0].id == C:
+                    ok_uses += 1
+                elif isinstance(n, ast.If) and self.is_memo_guard(n, {C}):
+                    ok_uses += 2          # the test and the guarded store
+                elif isinstance(n, ast.Subscript) and isinstance(n.value, ast.Name) and n.value.id == C and isinstance(n.ctx, ast.Load):
+                    ok_uses += 1
+            if uses != ok_uses:
+                local_dicts.discard(C)
+        if not local_dicts:
+            return
+
+        def names(e):
+            return {x.id for x in ast.walk(e) if isinstance(x, ast.Name)}
+
+        def process(body, loop_vars, loop_body):
+            i = 0
+            while i < len(body):
+                s = body[i]
+                if isinstance(s, (ast.For, ast.While)):
+                    lv = set(loop_vars)
+                    if isinstance(s, ast.For):
+                        lv |= set(target_names(s.target))
+                    process(s.body, lv, s.body)
+                elif isinstance(s, ast.If) and loop_vars and self.is_memo_guard(s, local_dicts):
+                    C = s.test.comparators[0].id
+                    K = s.test.left
+                    store = s.body[-1]
+                    # dependencies through the assignments of the loop body and of the guarded block
+                    assigns = {}
+                    for st in list(loop_body) + list(s.body):
+                        for n in ast.walk(st):
+                            if isinstance(n, ast.Assign):
+                                for t in n.targets:
+                                    for nm in target_names(t):
+                                        assigns.setdefault(nm, set()).update(names(n.value))
+                            elif isinstance(n, ast.AugAssign):
+                                for nm in target_names(n.target):
+                                    assigns.setdefault(nm, set()).update(names(n.value) | {nm})
+
+                    def closure(start):
+                        seen, todo = set(), list(start)
+                        while todo:
+                            x = todo.pop()
+                            if x in seen:
+                                continue
+                            seen.add(x)
+                            todo.extend(assigns.get(x, ()))
+                        return seen
+                    kdeps = closure(names(K)) & loop_vars
+                    vnames = set()
+                    for st in s.body:
+                        vnames |= names(st)
+                    vdeps = closure(vnames - {C}) & loop_vars
+                    injective = self.injective_key(K, assigns, body[:i])
+                    if vdeps <= kdeps and injective:
+                        tmp = self.fresh('memo')
+                        new_body = list(s.body[:-1]) + [ast.copy_location(ast.Assign(targets=[ast.Name(id=tmp, ctx=ast.Store())], value=store.value), store)]
+                        ktext = U(K)
+
+                        class R(ast.NodeTransformer):
+                            def visit_Subscript(self, n):
+                                n = self.generic_visit(n)
+                                if isinstance(n.value, ast.Name) and n.value.id == C and U(n.slice) == ktext and isinstance(n.ctx, ast.Load):
+                                    return ast.copy_location(ast.Name(id=tmp, ctx=ast.Load()), n)
+                                return n
+                        rest = [R().visit(x) for x in body[i + 1:]]
+                        body[i:] = new_body + rest
+                        for x in body:
+                            ast.fix_missing_locations(x)
+                        i += len(new_body)
+                        continue
+                    self.memo_issues.append((s, C, U(K), sorted(vdeps - kdeps) if not vdeps <= kdeps else ['<key not injective>']))
+                elif isinstance(s, ast.If):
+                    process(s.body, loop_vars, loop_body)
+                    process(s.orelse, loop_vars, loop_body)
+                elif isinstance(s, (ast.With, ast.Try)):
+                    process(s.body, loop_vars, loop_body)
+                i += 1
+        process(node.body, set(), node.body)
+
+    @staticmethod
+    def is_memo_guard(s, local_dicts):
+        t = s.test
+        if s.orelse or not s.body:
+            return False
+        if not (isinstance(t, ast.Compare) and len(t.ops) == 1 and isinstance(t.ops[0], ast.NotIn) and isinstance(t.comparators[0], ast.Name)
+                and t.comparators[0].id in local_dicts):
+            return False
+        last = s.body[-1]
+        return isinstance(last, ast.Assign) and len(last.targets) == 1 and isinstance(last.targets[0], ast.Subscript) and \
+            isinstance(last.targets[0].value, ast.Name) and last.targets[0].value.id == t.comparators[0].id and \
+            U(last.targets[0].slice) == U(t.left)
+
+    @staticmethod
+    def injective_key(K, assigns, before):
+        """keys built from names by identity-preserving wrappers: x, id(x), tuple(x), (x, y), str? no"""
+        def ok(e, depth=0):
+            if isinstance(e, ast.Name):
+                # a local `key = id(Q)` defined just before
+                for st in reversed(before):
+                    if isinstance(st, ast.Assign) and len(st.targets) == 1 and isinstance(st.targets[0], ast.Name) and st.targets[0].id == e.id \
+                            and depth < 3:
+                        return ok(st.value, depth + 1)
+                return True
+            if isinstance(e, ast.Call) and isinstance(e.func, ast.Name) and e.func.id in ('id', 'tuple', 'frozenset') and len(e.args) == 1:
+                return ok(e.args[0], depth)
+            if isinstance(e, ast.Tuple):
+                return all(ok(x, depth) for x in e.elts)
+            return False
+        return ok(K)
+
     def run(self):
         node = clone(self.fi.node)
+        self.memo_issues = []
+        self.dememoise(node)
         node.body = self.block(node.body, {}, (self.fi.qualname,))
         ast.fix_missing_locations(node)
         for n in ast.walk(node):
@@ -498,10 +627,11 @@ class Normaliser:
 class NormFunc(FuncInfo):
     """a FuncInfo whose node is the normalised copy; .original is the source FuncInfo"""
 
-    def __init__(self, fi, node, inlined):
+    def __init__(self, fi, node, inlined, memo_issues=()):
         FuncInfo.__init__(self, fi.module, node, fi.qualname, fi.cls, fi.parent)
         self.original = fi
         self.inlined = inlined
+        self.memo_issues = list(memo_issues)
 
 
 def normalised(repo, fi):
@@ -512,7 +642,7 @@ def normalised(repo, fi):
     if key not in cache or cache[key].original is not fi:
         nz = Normaliser(repo, fi)
         node = nz.run()
-        cache[key] = NormFunc(fi, node, nz.inlined)
+        cache[key] = NormFunc(fi, node, nz.inlined, nz.memo_issues)
     return cache[key]
 
 
